@@ -28,12 +28,16 @@ def main():
     marker = "## 9. Behaviour-preserving changes"
     head = text[: text.index(marker)] if marker in text else text.rstrip("\n") + "\n\n"
     body = (marker + " and the checks' silence\n\n"
-            "The other half of the claim - never an alarm on code where the property holds - was probed the same way as detection: six\n"
-            "independent sub-agents (given the property texts and a scratch worktree, nothing from /verif) each wrote four realistic\n"
-            "*behaviour-preserving* changes in one area (LazyList, transpiler templates incl. the layout of generated code, lexer/parser,\n"
-            "helpers, element bodies and modifier templates, main/context/encoding) and convinced themselves of equivalence with their own\n"
-            "differential runs. `tools/refcheck.sh` applies each on a scratch worktree, runs the 392 tests and then ALL twenty quick checks\n"
-            "against that copy; every check has to exit 0. Patches and results are kept under `refactors/<id>/`.\n\n"
+            "The other half of the claim - never an alarm on code where the property holds - was probed the same way as detection:\n"
+            "independent sub-agents (given the property texts and a scratch worktree, nothing from /verif) wrote realistic\n"
+            "*behaviour-preserving* changes, one area each, and convinced themselves of equivalence with their own differential runs.\n"
+            "Round 1 (R_*, after wave 5): six agents x four changes (LazyList, transpiler templates incl. the layout of generated code,\n"
+            "lexer/parser, helpers, element bodies and modifier templates, main/context/encoding); `tools/refcheck.sh` applies each on a\n"
+            "scratch worktree, runs the 392 tests and then ALL twenty quick checks against that copy. Round 2 (S_*, after wave 7, i.e.\n"
+            "against the strengthened checks): six agents x three changes (number functions, list functions, string / printing code,\n"
+            "lazy producers and consumers, the remaining templates and parser branches, the online / output path); for these the six to\n"
+            "nine checks anchored in the touched area were run (column `checks run`). Every check has to exit 0. Patches and results are\n"
+            "kept under `refactors/<id>/`.\n\n"
             + "\n".join(table) + "\n")
     open(os.path.join(VERIF, "DESIGN.md"), "w", encoding="utf-8").write(head + body)
     print(len(rows), "refactors;", sum(1 for r in rows if "| none |" in r), "silent")
